@@ -209,6 +209,7 @@ pub struct StmWorld {
     pub params: Parameters,
     pub initializers: Vec<Initializer>,
     pub vkpops: Vec<VerificationKeyProofOfPossessionForConcatenation>,
+    #[allow(dead_code)]
     pub sigs: Vec<SingleSignature>,
     pub agg: AggregateSignature<D>,
     pub avk: AggregateVerificationKeyForConcatenation<D>,
